@@ -27,6 +27,8 @@ FAMILY = {
  'fnn':   ('C:Apex(A, N:R(O:Oq(N:Na(A1,A2), N:Nb(B1,B2)), X))',       'random region holding an orthogonal region of two random regions'),
  'fpn':   ('C:Apex(C:P(C:G(G1,G2)), A)',                               'plan fixture: plan-owning region nested in a composite region'),
  'fpo':   ('O:Apex(L, C:G(G1,G2))',                                    'plan fixture: plan-owning region below an orthogonal region, after a plain sibling'),
+ 'fosel': ('O:Apex(S:Md(M1,M2), C:L(L1,L2))',                         'orthogonal root: a selectable region beside a composite one'),
+ 'fo3c':  ('O:Apex(C:P(P1,P2), C:Q(Q1,Q2), C:W(W1,W2))',              'orthogonal root of three composites: 10 serialization bits, a byte boundary inside the record'),
  'fnu':   ('C:Apex(A, U:U(U1, C:V(V1,V2)), S:Sx(S1,S2))',             'utilitarian region with a nested region, selectable sibling'),
 }
 QUICK = ['f5', 'f10', 'fsel', 'foroot']
